@@ -54,6 +54,8 @@ Unsettled(p, blk) ==
   \/ \E i, j \in 1..Len(p) : p[i].k = "set" /\ p[j].k \in {"label", "func"} /\ p[i].n = p[j].n
   \/ \E i \in 1..Len(p) : p[i].k = "use" /\ (\E j \in 1..Len(p) : p[j].k = "set" /\ p[j].n = p[i].n)
                             /\ ~(\E j \in 1..(i - 1) : p[j].k = "set" /\ p[j].n = p[i].n)
+  \* .export inside a block of a name that the block also defines: whether the local or the global one is meant
+  \/ \E i \in 1..Len(p) : p[i].k = "export" /\ blk[i] # 0 /\ DefsOf(p, blk, blk[i], p[i].n) # {}
   \* a block still open at the end of the file
   \/ LET opens == {i \in 1..Len(p) : Opens(p[i])} IN
      opens # {} /\ ~(\E j \in 1..Len(p) : Closes(p[j]) /\ \A i \in opens : i < j)
